@@ -18,6 +18,8 @@ rc, o = sh("git -C /repo worktree add -q --detach %s HEAD" % wt)
 assert rc == 0, o
 sh("cp -r /repo/target %s/target" % wt)
 patch = os.path.join(src, "patch%s.diff" % n); demo = os.path.join(src, "demo%s.rs" % n)
+if not os.path.exists(patch):      # re-evaluation of a kept change: seeded/<prop>-<n>/{patch.diff,demo.rs,meta.json}
+    patch = os.path.join(src, "patch.diff"); demo = os.path.join(src, "demo.rs")
 os.makedirs(wt + "/tests", exist_ok=True)
 shutil.copy(demo, wt + "/tests/demo.rs")
 res = {"property": prop, "n": n}
@@ -43,8 +45,12 @@ res["target_detected"] = det.get(prop, {}).get("exit") == 1
 res["wall_s"] = round(time.time() - t)
 dst = "/verif/seeded/%s-%s" % (prop, n)
 os.makedirs(dst, exist_ok=True)
-shutil.copy(patch, dst + "/patch.diff"); shutil.copy(demo, dst + "/demo.rs")
-meta = json.load(open(os.path.join(src, "meta%s.json" % n))) if os.path.exists(os.path.join(src, "meta%s.json" % n)) else {}
+if os.path.abspath(patch) != os.path.abspath(dst + "/patch.diff"):
+    shutil.copy(patch, dst + "/patch.diff"); shutil.copy(demo, dst + "/demo.rs")
+mp = os.path.join(src, "meta%s.json" % n)
+if not os.path.exists(mp):
+    mp = os.path.join(src, "meta.json")
+meta = json.load(open(mp)) if os.path.exists(mp) else {}
 meta["confirmed"] = {k: res[k] for k in ("demo_clean_pass", "demo_patched_fail", "suite_patched")}
 meta["ran"] = "lib/seedtest.py: scratch worktree of /repo HEAD + patch; harness built against it (cargo --config paths); quick checks: " + ",".join(props)
 meta["detected_by"] = res["detected_by"]; meta["target_detected"] = res["target_detected"]; meta["checks"] = det
